@@ -21,7 +21,7 @@ vars == <<l, judged, nontriv, skipped, drift, found>>
 Idx(q) == 1..Len(q)
 Card(X) == Cardinality(X)
 
-PCOf(m) == [StdPC EXCEPT !.undef = m.undef, !.ops = {"f", "g", "h", "p"}]
+PCOf(m) == [StdPC EXCEPT !.undef = m.undef, !.ops = {"f", "g", "h", "p", "one", "zt", "zf"}]
 SiteFinding(site) ==
   CASE site = "eval.(*parser).check" -> "F-C06-1"
     [] site = "eval.(*parser).pos" -> "F-C06-2"
